@@ -157,21 +157,9 @@ func bodyMutations(recompute bool) []mutation {
 			b.Body().SetTransactions(l)
 			return true
 		}),
-		bm("swap-adjacent-txs", func(b *types.WorkObject) bool {
-			// the first adjacent pair after position 0 whose swap breaks an ordering rule
-			l := txs(b)
-			if swapBreaksOrder == nil {
-				return false
-			}
-			for i := 1; i+1 < len(l); i++ {
-				if l[i].Hash() != l[i+1].Hash() && swapBreaksOrder(b, l[i], l[i+1]) {
-					l[i], l[i+1] = l[i+1], l[i]
-					b.Body().SetTransactions(l)
-					return true
-				}
-			}
-			return false
-		}),
+		bm("swap-adjacent-txs/qi-first", func(b *types.WorkObject) bool { return swapAdjacent(b, txs(b), types.QiTxType) }),
+		bm("swap-adjacent-txs/quai-first", func(b *types.WorkObject) bool { return swapAdjacent(b, txs(b), types.QuaiTxType) }),
+		bm("swap-adjacent-txs/etx-first", func(b *types.WorkObject) bool { return swapAdjacent(b, txs(b), types.ExternalTxType) }),
 		bm("drop-inbound-etx", func(b *types.WorkObject) bool {
 			l := txs(b)
 			i := firstOfType(l, types.ExternalTxType)
@@ -324,6 +312,22 @@ func allMutations() []mutation {
 }
 
 // reseal gives the mutated copy a consistent header hash and a valid zone-order seal.
+// swapAdjacent swaps the first adjacent pair (l[i], l[i+1]) whose swap breaks an ordering rule and
+// puts a transaction of type firstType in front.
+func swapAdjacent(b *types.WorkObject, l []*types.Transaction, firstType byte) bool {
+	if swapBreaksOrder == nil {
+		return false
+	}
+	for i := 0; i+1 < len(l); i++ {
+		if l[i+1].Type() == firstType && l[i].Hash() != l[i+1].Hash() && swapBreaksOrder(b, l[i], l[i+1]) {
+			l[i], l[i+1] = l[i+1], l[i]
+			b.Body().SetTransactions(l)
+			return true
+		}
+	}
+	return false
+}
+
 // swapBreaksOrder is set by the test: it reports whether the block stays invalid when transactions
 // first, second (its first two, in that order) are swapped and the body roots recomputed.
 var swapBreaksOrder func(b *types.WorkObject, first, second *types.Transaction) bool
@@ -457,6 +461,18 @@ func TestC07_OwnAndMutants(t *testing.T) {
 				}
 				before := n.ZoneChainState()
 				pick := rapid.SliceOfNDistinct(rapid.IntRange(0, len(muts)-1), 3, 8, rapid.ID[int]).Draw(t, "mutations")
+				// the order mutants apply to few blocks: always tried when they do
+				for mi, m := range muts {
+					if strings.HasPrefix(m.name, "body/swap-adjacent-txs/") && strings.HasSuffix(m.name, "/roots-recomputed") {
+						dup := false
+						for _, p := range pick {
+							dup = dup || p == mi
+						}
+						if !dup {
+							pick = append(pick, mi)
+						}
+					}
+				}
 				sort.Ints(pick)
 				for _, mi := range pick {
 					m := muts[mi]
